@@ -70,7 +70,7 @@ fn preamble() -> Component {
     component![
         "bMsgtype" => 0 as u8,
         "flag" => Check::new(Preambule::PreambleVersion30 as u8),
-        "wMsgSize" => DynOption::new(U16::LE(0), |size| MessageOption::Size("message".to_string(), size.inner() as usize - 4)),
+        "wMsgSize" => DynOption::new(U16::LE(0), |size| MessageOption::Size("message".to_string(), (size.inner() as usize).saturating_sub(4))),
         "message" => Vec::<u8>::new()
     ]
 }
@@ -122,6 +122,11 @@ pub fn client_connect(s: &mut dyn Read) -> RdpResult<()> {
 
     let mut license_message = preamble();
     license_message.read(s)?;
+
+    // wMsgSize includes the 4 bytes of the preamble
+    if cast!(DataType::U16, license_message["wMsgSize"])? < 4 {
+        return Err(Error::RdpError(RdpError::new(RdpErrorKind::InvalidSize, "License message shorter than its preamble")))
+    }
 
     match parse_payload(&license_message)? {
         LicenseMessage::NewLicense => Ok(()),
